@@ -25,6 +25,11 @@ SURF_TYPES = {
 COMMON_SURF = ["px", "py", "pz", "so", "cz", "cx", "c/z", "s", "p", "cy", "sx"]
 
 
+# xM shortcuts cannot be written at all on the current tree (C08 finding F-C08-multiply-format):
+# generators of the other properties leave them out
+MULTIPLY_OK = False
+
+
 def fmt_real(rng, x=None, positive=False, style=None):
     """spell a real number in one of the G_core REAL styles"""
     if x is None:
@@ -47,12 +52,14 @@ def fmt_real(rng, x=None, positive=False, style=None):
         s = (("%." + str(rng.randint(1, 5)) + "e") % a).replace("e", "")
     elif style == "plus":
         s = ("%." + str(rng.randint(1, 4)) + "f") % a
+        if parse_real(s) == 0.0:
+            s = "0.5"
         return ("-" if neg else "+") + s
     elif style == "lead0":
         s = "0" + ("%." + str(rng.randint(1, 4)) + "f") % a
     else:  # dot
         s = ("%d." % int(a)) if a >= 1 else (".%03d" % int(a * 1000))
-    if positive and parse_real(s) == 0.0:
+    if parse_real(s) == 0.0:          # never spell a zero by rounding: zero radii / densities are not valid input
         s = "0.5"
     return ("-" if neg else "") + s
 
@@ -121,9 +128,13 @@ def gen_numlist(rng, n, positive=True, ints=False, shortcuts=True, allow_jump=Tr
     """n logical entries -> (items, values) ; values: float | 'J'"""
     items = []
     vals = []
+    since = 9          # plain values since the last shortcut (three chained shortcuts are a C12 finding)
     while len(vals) < n:
         left = n - len(vals)
         r = rng.random()
+        if since < 2 and r < 0.36:
+            r = 0.99
+        before = len(items)
         if items and items[-1][1].endswith("m") and r < 0.12:
             r = 0.99                              # 'xM nR' is rejected by the parser (C12 finding)
         if shortcuts and vals and vals[-1] != "J" and r < 0.12 and left >= 1:
@@ -141,7 +152,7 @@ def gen_numlist(rng, n, positive=True, ints=False, shortcuts=True, allow_jump=Tr
             items.append(T("%di" % k))
             items.append(T("%g" % b))
             vals += [a + (b - a) * j / (k + 1) for j in range(1, k + 1)] + [b]
-        elif shortcuts and not ints and vals and vals[-1] != "J" and r < 0.36:
+        elif shortcuts and MULTIPLY_OK and not ints and vals and vals[-1] != "J" and r < 0.36:
             m = rng.choice([2, 3, 10])          # real multipliers (0.5m) are a C12 finding; see gen_core
             items.append(T("%gm" % m))
             vals.append(vals[-1] * m)
@@ -155,6 +166,10 @@ def gen_numlist(rng, n, positive=True, ints=False, shortcuts=True, allow_jump=Tr
                 s = fmt_real(rng, positive=positive)
                 items.append(T(s))
                 vals.append(parse_real(s))
+        if r < 0.36 and len(items) > before and not (items[-1][1][-1].isdigit() and len(items) - before == 1):
+            since = 0
+        else:
+            since += 1
     return items, vals
 
 
@@ -319,7 +334,7 @@ def gen_problem(rng, opts=None):
                 it, _ = gen_numlist(rng, rng.randint(2, 6), positive=True, shortcuts=o["shortcuts"], allow_jump=False)
                 ex.append([T("e%d" % tn)] + it)
             if rng.random() < 0.3:
-                ex.append([T("fc%d" % tn), T("tally"), T("comment"), T("text")])
+                ex.append([T("fc%d tally comment text" % tn)])
         if rng.random() < 0.3:
             ex.append([T("sdef"), T("pos"), EQ, T("0"), T("0"), T("0"), T("erg"), EQ, T(fmt_real(rng, positive=True, style="fixed"))])
         if rng.random() < 0.2:
